@@ -2,7 +2,7 @@
 //! category-definition texts (charDef) and unk.def texts, incl. malformed lines.  Recorded: load status, the kind (and line)
 //! of the error value, and — for loaded plugins — the candidates the plugin hands out on probe texts (begin, end, left_id,
 //! right_id, cost, POS id), which expose the category infos (invoke / group / length) and the templates per category in order.
-use super::{Env, SYS_POS};
+use super::{forbid_mode, mode_json_field, Env, PosMode, SYS_POS};
 use crate::common::*;
 use serde_json::{json, Value};
 use sudachi::analysis::created::CreatedWords;
@@ -18,7 +18,7 @@ use sudachi::input_text::{InputBuffer, InputTextIndex};
 pub struct TextCase {
     pub nl: i64,
     pub nr: i64,
-    pub allow: bool,
+    pub allow: PosMode,
     pub chardef: String,
     pub unkdef: String,
 }
@@ -88,10 +88,10 @@ fn run_impl(env: &mut Env, case: &TextCase) -> Outcome {
     std::fs::write(env.dir.join("text_catdef.def"), &case.chardef).unwrap();
     std::fs::write(env.dir.join("text_unk.def"), &case.unkdef).unwrap();
     let cfg_text = format!(
-        "{{\"path\":{},\"characterDefinitionFile\":\"char.def\",\"oovProviderPlugin\":[{{\"class\":\"com.worksap.nlp.sudachi.SimpleOovPlugin\",\"oovPOS\":{},\"leftId\":0,\"rightId\":0,\"cost\":3000}},{{\"class\":\"com.worksap.nlp.sudachi.MeCabOovPlugin\",\"charDef\":\"text_catdef.def\",\"unkDef\":\"text_unk.def\",\"userPOS\":\"{}\"}}]}}",
+        "{{\"path\":{},\"characterDefinitionFile\":\"char.def\",\"oovProviderPlugin\":[{{\"class\":\"com.worksap.nlp.sudachi.SimpleOovPlugin\",\"oovPOS\":{},\"leftId\":0,\"rightId\":0,\"cost\":3000}},{{\"class\":\"com.worksap.nlp.sudachi.MeCabOovPlugin\",\"charDef\":\"text_catdef.def\",\"unkDef\":\"text_unk.def\"{}}}]}}",
         serde_json::to_string(&env.dir.to_string_lossy()).unwrap(),
         serde_json::to_string(&SYS_POS[0].split(',').collect::<Vec<_>>()).unwrap(),
-        if case.allow { "allow" } else { "forbid" }
+        mode_json_field(&case.allow)
     );
     let cfg = ConfigBuilder::from_bytes(cfg_text.as_bytes()).expect("config json").build();
     let mut out = Outcome { status: "SErr", msg: String::new(), kind: 0, line: None, probes: vec![], probes_skipped: false, analysis: None };
@@ -167,11 +167,14 @@ pub fn emit(sink: &mut Sink, env: &mut Env, case: &TextCase, shape: &str, verbos
         )
     }));
     let term = format!(
-        "check_mecab_text (mkGram {} {} {}) {} {} {} {} {} {} {}",
+        "check_mecab_text_m (mkGram {} {} {}) {} {} {} {} {} {} {}",
         cz(case.nl),
         cz(case.nr),
         sys_pos_term(),
-        cbool(case.allow),
+        match case.allow {
+            Some(b) => format!("(Some {})", cbool(b)),
+            None => "None".to_string(),
+        },
         ctext(&case.chardef),
         ctext(&case.unkdef),
         out.status,
@@ -205,6 +208,16 @@ pub fn emit(sink: &mut Sink, env: &mut Env, case: &TextCase, shape: &str, verbos
     }
     if let Some(a) = &out.analysis {
         sink.fail(id, &format!("definition texts were accepted, then {}", a), "");
+    }
+    if out.status == "SOk" && case.allow != Some(true) {
+        // independent reading: a data line whose POS columns are none of the dictionary's POS
+        let absent = case.unkdef.lines().map(|l| l.trim()).filter(|l| !l.is_empty() && !l.starts_with('#')).any(|l| {
+            let c: Vec<&str> = l.split(',').collect();
+            c.len() >= 10 && !SYS_POS.iter().any(|p| p.split(',').collect::<Vec<_>>() == c[4..10])
+        });
+        if absent {
+            sink.fail(id, &format!("unk.def names a part of speech that is not in the dictionary while userPOS is {}, yet the plugin loaded", if case.allow.is_none() { "not mentioned" } else { "\"forbid\"" }), "");
+        }
     }
     if out.status == "SErr" && out.kind == 0 {
         sink.fail(id, &format!("error value of an unexpected kind: {}", out.msg), "");
@@ -394,7 +407,7 @@ pub fn replay(sink: &mut Sink, env: &mut Env, c: &Value) {
     let case = TextCase {
         nl: c["nl"].as_i64().unwrap(),
         nr: c["nr"].as_i64().unwrap(),
-        allow: c["allow"].as_bool().unwrap(),
+        allow: c["allow"].as_bool(),
         chardef: c["chardef"].as_str().unwrap().to_string(),
         unkdef: c["unkdef"].as_str().unwrap().to_string(),
     };
@@ -430,15 +443,16 @@ pub fn run(sink: &mut Sink, env: &mut Env, rng: &mut Rng, n: usize) {
         ("directed_plus_sign", base_cd.into(), format!("ALPHA,+1,+0,+100,{}\nALPHA,-0,1,-0,{}\n", pos, pos)),
         ("directed_cost_grid", base_cd.into(), format!("ALPHA,1,1,32767,{}\nALPHA,1,1,-32768,{}\n", pos, pos)),
         ("directed_cost_grid", base_cd.into(), format!("ALPHA,1,1,32768,{}\n", pos)),
+        ("directed_absent_pos", base_cd.into(), "ALPHA,1,1,100,名詞,未登録,*,*,*,*\n".into()),
         ("directed_pos_with_space", base_cd.into(), "ALPHA,1,1,100, 名詞,固有名詞,地名,一般,*,*\n".into()),
     ];
     for (shape, cd, ud) in directed {
-        for allow in [false, true] {
+        for allow in [Some(false), Some(true), None] {
             emit(sink, env, &TextCase { nl: 3, nr: 3, allow, chardef: cd.clone(), unkdef: ud.clone() }, shape, false);
         }
     }
-    emit(sink, env, &TextCase { nl: 3, nr: 2, allow: false, chardef: base_cd.into(), unkdef: format!("ALPHA,2,1,0,{}\n", pos) }, "directed_non_square", false);
-    emit(sink, env, &TextCase { nl: 3, nr: 2, allow: false, chardef: base_cd.into(), unkdef: format!("ALPHA,1,2,0,{}\n", pos) }, "directed_non_square", false);
+    emit(sink, env, &TextCase { nl: 3, nr: 2, allow: None, chardef: base_cd.into(), unkdef: format!("ALPHA,2,1,0,{}\n", pos) }, "directed_non_square", false);
+    emit(sink, env, &TextCase { nl: 3, nr: 2, allow: Some(false), chardef: base_cd.into(), unkdef: format!("ALPHA,1,2,0,{}\n", pos) }, "directed_non_square", false);
     let good_cd = b"DEFAULT 0 1 0\nALPHA 1 1 0\n";
     let good_ud = format!("ALPHA,1,1,100,{}\n", pos);
     emit_raw(sink, env, b"DEFAULT 0 1 0\nALPHA \xff 1 0\n", good_ud.as_bytes(), "raw_invalid_utf8_in_category_definitions");
@@ -447,9 +461,9 @@ pub fn run(sink: &mut Sink, env: &mut Env, rng: &mut Rng, n: usize) {
     // ---- structured stream: valid texts with exactly one damaged line
     for it in 0..n {
         let (nl, nr) = dims(rng);
-        let allow = rng.chance(1, 2);
+        let allow: PosMode = if rng.chance(1, 2) { Some(true) } else { forbid_mode(rng) };
         let cats = gen_cats(rng);
-        let unk = gen_unk(rng, &cats, nl, nr, allow);
+        let unk = gen_unk(rng, &cats, nl, nr, allow == Some(true));
         let mut cat_lines: Vec<String> = cats.iter().map(|c| render_cat(c, rng)).collect();
         let mut unk_lines: Vec<String> = unk.iter().map(|u| u.cols.join(",")).collect();
         let shape: &str;
